@@ -80,26 +80,32 @@ Proof.
 Qed.
 
 (* ---------- the reloaded document is in the domain again ---------- *)
-Lemma savable_reloaded d : savable_core d -> savable_core (reloaded_table d).
+Lemma savable_reloaded_enc d : savable_core_enc d -> savable_core_enc (reloaded_table d).
 Proof.
-  intro S. pose proof (sv_max_id d S) as Hm. pose proof (sv_objects d S) as Ho.
+  intro S. pose proof (se_max_id d S) as Hm. pose proof (se_objects d S) as Ho.
   assert (Hlast : last_number (d_objects d) <= d_max_id d).
   { unfold last_number. apply fold_max_le; [lia|]. eapply Forall_impl; [|exact Ho]. intros io [H1 _]. exact H1. }
   constructor; cbn [reloaded_table d_max_id d_binary_mark d_version d_objects d_trailer].
   - lia.
-  - apply (sv_mark d S).
-  - apply (sv_version_eol d S).
-  - apply (sv_version_utf8 d S).
-  - rewrite obj_numbers_norm. apply (sv_numbers d S).
+  - apply (se_mark d S).
+  - apply (se_version_eol d S).
+  - apply (se_version_utf8 d S).
+  - rewrite obj_numbers_norm. apply (se_numbers d S).
   - unfold norm_objects. apply Forall_forall. intros io' Hin. apply in_map_iff in Hin as [io [<- Hin]].
     rewrite Forall_forall in Ho. destruct (Ho io Hin) as [H1 [H2 [H3 H4]]]. cbn [fst snd].
     split; [unfold last_number; apply le_last_number; exact Hin|]. split; [exact H2|].
     split; [apply top_wf_norm; exact H3 | rewrite skipped_norm; exact H4].
-  - apply (norm_obj_wf (ODict (trailer_table d))). apply trailer_table_wf. exact S.
+  - apply (norm_obj_wf (ODict (trailer_table d))). apply trailer_table_wf_enc. exact S.
   - unfold dict_has. rewrite dict_get_norm. unfold trailer_table. rewrite dict_get_set_other by discriminate.
-    rewrite (dict_has_false_get _ _ (sv_no_prev d S)). reflexivity.
-  - unfold dict_has. rewrite dict_get_norm. unfold trailer_table. rewrite dict_get_set_other by discriminate.
-    rewrite (dict_has_false_get _ _ (sv_no_encrypt d S)). reflexivity.
+    rewrite (dict_has_false_get _ _ (se_no_prev d S)). reflexivity.
+Qed.
+
+Lemma savable_reloaded d : savable_core d -> savable_core (reloaded_table d).
+Proof.
+  intro S. apply core_of_enc; [apply savable_reloaded_enc, core_enc; exact S|].
+  cbn [reloaded_table d_trailer].
+  unfold dict_has. rewrite dict_get_norm. unfold trailer_table. rewrite dict_get_set_other by discriminate.
+  rewrite (dict_has_false_get _ _ (sv_no_encrypt d S)). reflexivity.
 Qed.
 
 Lemma known_deep_reloaded d : known_deep d = false -> known_deep (reloaded_table d) = false.
